@@ -212,6 +212,34 @@ fn observe(segs: &[String], fmt: Option<vmh::Format>) -> (String, String, usize)
     (text, "ok".to_string(), nrec)
 }
 
+/// The same run observed through texlang-stdlib's own output path (script.rs): the text written, outcome kind.
+fn observe_script(segs: &[String], fmt: Option<vmh::Format>) -> (String, String) {
+    let term: Vec<String> = vec![];
+    let files = crate::c09::fs_files();
+    let mut vm = vmh::new_vm(&files, &term);
+    let mut text = String::new();
+    for (i, seg) in segs.iter().enumerate() {
+        if i > 0 {
+            if let Some(f) = fmt {
+                match crate::util::catch(|| vmh::checkpoint(&vm, f, &files, &term)) {
+                    Ok(Ok(v)) => vm = v,
+                    Ok(Err(e)) => return (text, format!("checkpoint failed: {e}")),
+                    Err((site, msg)) => return (text, format!("checkpoint panicked at {site}: {msg}")),
+                }
+            }
+        }
+        let (t, outcome) = vmh::run_script(&mut vm, "main.tex", seg, 50_000);
+        text.push_str(&t);
+        match outcome {
+            vmh::Outcome::Ok => {}
+            vmh::Outcome::Err { title, .. } => return (text, format!("error: {title}")),
+            vmh::Outcome::Panic { site, msg } => return (text, format!("panic at {site}: {msg}")),
+            vmh::Outcome::Budget => return (text, "budget".to_string()),
+        }
+    }
+    (text, "ok".to_string())
+}
+
 /// Differential form of the stuttering obligation on arbitrary generated programs: P = A \n B is run
 /// (1) as two sources on one VM and (2) with a serialise/deserialise between them; every observation
 /// must agree.  Only cuts where A itself ends normally (pending input exhausted without error) count.
@@ -253,6 +281,17 @@ pub fn diff(args: &Args) -> i32 {
                                 "format":format!("{f:?}"),"uncut":{"text":base.0,"outcome":base.1,"recoverable":base.2},
                                 "checkpointed":{"text":cut.0,"outcome":cut.1,"recoverable":cut.2}}));
                         }
+                    } else if {
+                        // the same pair through the repository's own writer (blanks and newlines owed to the next token)
+                        let sb = observe_script(&segs, None);
+                        let sc_ = observe_script(&segs, Some(f));
+                        if sb != sc_ && viol.len() < 50 {
+                            viol.push(json!({"kind":"violation","part":"checkpoint-diff-script-output","before":segs[0],"after":segs[1],
+                                "format":format!("{f:?}"),"uncut":{"text":sb.0,"outcome":sb.1,"recoverable":0},
+                                "checkpointed":{"text":sc_.0,"outcome":sc_.1,"recoverable":0}}));
+                        }
+                        sb != sc_
+                    } {
                     } else if sample.is_none() && base.2 > 0 && segs[1].contains("\\fi") {
                         sample = Some(json!({"before":segs[0],"after":segs[1],"format":format!("{f:?}"),"text":base.0,"outcome":base.1}));
                     }
